@@ -20,6 +20,7 @@ def main():
         from harness import sched_sim                  # noqa: registers builders
         from harness import bf_sim                     # noqa
         from harness import lm_sim                     # noqa
+        from harness import staging_sim                # noqa
         fn = builders.BUILDERS.get(case['function'])
         if fn is None:
             out = dict(confirmed=None,
